@@ -481,7 +481,7 @@ def circuit_method(I, recv, o, name, args, kwargs, e, fr):
                 prov |= ao.elem.prov
         if prov:
             leaf = ("tgate", name, arity, tuple(sorted(prov, key=repr)), o.oid)
-            I.events.append(("tgate-emit", fr.func.fq, name, where(fr, e)))
+            I.events.append(("tgate-emit", fr.func.fq, name, where(fr, e), tuple(x.func.fq for x in I.stack if x.func is not None)))
         else:
             leaf = ("emit", name, arity)
             if arity >= 2:
